@@ -163,6 +163,9 @@ def correspond(ctx):
                 continue
             ok = "crash" not in r and not r["notes"] and all(o == "ok" for o in r["out"])
             o_slow.check(proto, ok, {"op": "slow-window", "proto": proto, "threads": 4}, r, "every thread: the single-thread result, initialisation once")
+    # ---- 2c. lazily built DES tables: a line-level schedule that stops the first thread between the table assignments
+    p = subprocess.run([sys.executable, "-W", "ignore", os.path.join(TOOLS, "corr", "c19_des_demo.py")], capture_output=True, text=True, timeout=120, env=dict(os.environ, PYTHONPATH=REPO))
+    o_slow.check("des-tables", p.returncode == 0, {"op": "des-tables"}, (p.stdout + p.stderr)[-300:], "both threads get the DES block")
     # ---- 3. after initialisation: concurrent hash / verify on shared hashers and contexts = sequential answers
     for r in post_init_runs(1 if not ctx.thorough else 10):
         o_post.check(r["what"], r["ok"], {"op": "post-init", "what": r["what"]}, r["observed"], "the answers of the sequential run")
@@ -334,6 +337,9 @@ def replay(ctx, inp):
         free = worker({"repo": REPO, "proto": proto, "n": inp.get("threads", 12), "points": [], "schedules": [], "free": inp.get("reps", 40), "free_n": inp.get("threads", 12)})["free"]
         bad = [r for r in free if "crash" in r or r["notes"] or any(o != f"ok:{WANT[proto]}" for o in r["out"])]
         return {"fails": bool(bad), "observed": bad[:2] or f"{len(free)} runs, every thread ok:{WANT[proto]}"}
+    if op == "des-tables":
+        p = subprocess.run([sys.executable, "-W", "ignore", os.path.join(TOOLS, "corr", "c19_des_demo.py")], capture_output=True, text=True, timeout=120, env=dict(os.environ, PYTHONPATH=REPO))
+        return {"fails": p.returncode != 0, "observed": (p.stdout + p.stderr)[-300:]}
     if op == "slow-window":
         runs = worker({"repo": REPO, "proto": inp["proto"], "n": 4, "points": [], "schedules": [], "slow": 3, "slow_n": inp.get("threads", 4)}).get("slow", [])
         bad = [r for r in runs if "crash" in r or r["notes"] or any(o != "ok" for o in r["out"])]
